@@ -14,6 +14,10 @@ TRUSTED_BASE = [
 ]
 
 PLAN = {
+    "C20": {
+        "level": "proof",
+        "contracts": ["contracts.io_buffer"],
+    },
     "C01": {
         "level": "exploration",
         "bounded": ["bounded.c01"],
@@ -93,6 +97,17 @@ PLAN = {
 }
 
 MANIFEST_TEXT = {
+    "C20": {
+        "text": "PARTIAL CLAIM: receive-buffer lemmas only. Proved on the real code for all buffers, messages and indices: "
+                "FandangoIO.add_receive appends the message's characters/bytes in order, one fragment each, tagged (sender, "
+                "receiver), leaving earlier entries untouched; clear_by_party keeps exactly the entries that are not (from the "
+                "party and at an index <= to_idx), unchanged; _find_next_fragment returns the first index >= start with that "
+                "sender. Everything else in C20 (the run loop, threads, sockets, timeouts, arrival interleavings, validity of the "
+                "interaction tree) is NOT decided by this family and not claimed.",
+        "note": "sequential reasoning: `with self.receive_lock` is treated as transparent; get_full_fragments is not covered; the "
+                "property's schedule/fault quantifiers are outside contract-based deductive verification here.",
+        "technique": "contract-based deductive verification of three buffer functions (sequence theory, loop invariants), z3+cvc5",
+    },
     "C15": {
         "text": "Printer contracts on the real format_as_spec of Star/Plus/Option/Repetition/Alternative/NonTerminalNode by ghost "
                 "binding level (ATOM < POSTFIX < SEQ < ALT, from the reader's grammar): a postfix operator prints its operand as a "
